@@ -138,23 +138,35 @@ Example C12_nonvacuous :
   /\ node_go_to (0, [1; 0; 0]) (GNode (0, [1])) = Ret [[1; 0; 0]; [1; 0]; [1]].
 Proof. vm_compute. repeat split. Qed.
 
-(* Clauses the faithful model of the inherited queries on BinaryNode trees does NOT satisfy
-   (BinaryNode.children always has the two slots, an empty one being None; BaseNode.diameter and
-   BaseNode.siblings iterate over them unchanged).  Proposed findings K4-C12 / K5-C12; exercised on
-   the implementation by the `binary` cases of the derived engine when enabled. *)
-Example C12_binary_diameter_refuted :
-  exists b, bt_diameter b = Raise AttributeError
-            /\ spec_diameter (bt_to_rose b) [] = 1
-            /\ prop_C12_binary_diameter (bt_to_rose b) [] (exn_code AttributeError) 0 = false.
-Proof. exists (BT 0 (Some (BT 1 None None)) None). vm_compute. repeat split. Qed.
+(* The inherited queries on BinaryNode trees (BinaryNode.children is always the pair of slots, an
+   empty one being None).  `bt_to_rose b` is the image of b without the empty slots. *)
 
-Example C12_binary_siblings_refuted :
-  exists b g, bt_siblings b g = [None]
-              /\ spec_siblings (bt_to_rose b) (pos_of_tag (bt_to_rose b) g) = []
-              /\ prop_C12_binary_siblings (bt_to_rose b) (pos_of_tag (bt_to_rose b) g) [None] = false.
-Proof. exists (BT 0 (Some (BT 1 None None)) None), 1. vm_compute. repeat split. Qed.
+(* BaseNode.diameter on a BinaryNode (as repaired by 8c12410, which skips the empty slots) is the
+   largest number of edges between two nodes of the image tree *)
+Theorem C12_binary_diameter : forall b,
+  bt_diameter b = spec_diameter (bt_to_rose b) []
+  /\ (forall p q, In p (positions (bt_to_rose b)) -> In q (positions (bt_to_rose b)) -> dist p q <= bt_diameter b)
+  /\ (exists p q, In p (positions (bt_to_rose b)) /\ In q (positions (bt_to_rose b)) /\ dist p q = bt_diameter b).
+Proof. exact clause_binary_diameter. Qed.
+Print Assumptions C12_binary_diameter.
 
-(* on binary trees without a one-child node the inherited diameter is the first-principles one *)
-Example C12_binary_diameter_full_ok :
-  bt_diameter (BT 0 (Some (BT 1 (Some (BT 3 None None)) (Some (BT 4 None None)))) (Some (BT 2 None None))) = Ret 3.
-Proof. vm_compute. reflexivity. Qed.
+(* BaseNode.siblings on a BinaryNode: the other entries of the parent's pair of slots, in order,
+   an empty slot being None; no parent, no siblings *)
+Theorem C12_binary_siblings : forall root g,
+  prop_C12_binary_siblings (option_map (fun parent => map (option_map bt_tag) (bt_children parent)) (bt_parent_of root g))
+                           g (bt_siblings root g) = true.
+Proof. exact clause_binary_siblings. Qed.
+Print Assumptions C12_binary_siblings.
+
+(* the slot semantics on concrete trees: an only child has the empty slot as its sibling entry;
+   the one-child tree that made diameter crash before 8c12410 has diameter 1 *)
+Example C12_binary_examples :
+  bt_siblings (BT 0 (Some (BT 1 None None)) None) 1 = [None]
+  /\ bt_siblings (BT 0 None (Some (BT 1 None None))) 1 = [None]
+  /\ bt_siblings (BT 0 (Some (BT 1 None None)) (Some (BT 2 None None))) 1 = [Some 2]
+  /\ bt_siblings (BT 0 (Some (BT 1 None None)) (Some (BT 2 None None))) 2 = [Some 1]
+  /\ bt_siblings (BT 0 (Some (BT 1 None None)) None) 0 = []
+  /\ bt_diameter (BT 0 (Some (BT 1 None None)) None) = 1
+  /\ bt_diameter (BT 0 (Some (BT 1 (Some (BT 3 None None)) (Some (BT 4 None None)))) (Some (BT 2 None None))) = 3
+  /\ bt_diameter (BT 0 None (Some (BT 1 (Some (BT 2 None (Some (BT 3 None None)))) None))) = 3.
+Proof. vm_compute. repeat split. Qed.
